@@ -212,6 +212,80 @@ def deep_dyadic(rng):
     return ("a:%s:%d/0:%d/0" % (",".join(map(str, cs)), n, n + 1), b / a, 3), (a, b)
 
 
+# Families of numbers that libpoly holds with IDENTICAL isolating intervals (the `a:` interval is shorter than 1 and has
+# no integer inside, so lp_algebraic_number_construct keeps it as given): lp_algebraic_number_cmp then takes the
+# "equal intervals" branch (gcd test, reduction of both polynomials, bisect-away loop).  Members are reducible
+# polynomials sharing factors whose roots lie OUTSIDE the interval, rationals and dyadics hidden behind a polynomial,
+# several of them exactly at the mid point of the interval (they collapse on the first bisection).
+# (lo, hi, [(coefficients low first, value as Fraction or float)])
+FAMILIES = [
+    ("1/0", "3/1", [
+        ([6, 0, -5, 0, 1], math.sqrt(2)),            # (x^2-2)(x^2-3)
+        ([-2, 0, 1], math.sqrt(2)),
+        ([12, -9, -4, 3], Fraction(4, 3)),           # (x^2-3)(3x-4)
+        ([-4, 3], Fraction(4, 3)),
+        ([15, -12, -5, 4], Fraction(5, 4)),          # (4x-5)(x^2-3): the mid point
+        ([-5, 4], Fraction(5, 4)),
+        ([33, -24, -11, 8], Fraction(11, 8)),        # (8x-11)(x^2-3)
+        ([-21, 16], Fraction(21, 16)),
+    ]),
+    ("1/2", "1/1", [
+        ([-3, 8], Fraction(3, 8)),                   # the mid point of (1/4, 1/2)
+        ([6, -16, -3, 8], Fraction(3, 8)),           # (8x-3)(x^2-2)
+        ([-1, 2, 1], math.sqrt(2) - 1),
+        ([2, -4, -3, 2, 1], math.sqrt(2) - 1),       # (x^2+2x-1)(x^2-2)
+        ([-1, 3], Fraction(1, 3)),
+        ([2, -6, -1, 3], Fraction(1, 3)),            # (3x-1)(x^2-2)
+        ([-7, 16], Fraction(7, 16)),
+        ([10, -32, -5, 16], Fraction(5, 16)),        # (16x-5)(x^2-2)
+        ([-1, 2, 2], (math.sqrt(3) - 1) / 2),
+    ]),
+    ("2/0", "5/1", [
+        ([-5, 0, 1], math.sqrt(5)),
+        ([10, 0, -7, 0, 1], math.sqrt(5)),           # (x^2-5)(x^2-2)
+        ([-9, 4], Fraction(9, 4)),                   # the mid point
+        ([18, -8, -9, 4], Fraction(9, 4)),           # (4x-9)(x^2-2)
+        ([-7, 3], Fraction(7, 3)),
+        ([14, -6, -7, 3], Fraction(7, 3)),           # (3x-7)(x^2-2)
+        ([-17, 8], Fraction(17, 8)),
+    ]),
+    ("-3/1", "-1/0", [
+        ([-2, 0, 1], -math.sqrt(2)),
+        ([6, 0, -5, 0, 1], -math.sqrt(2)),
+        ([5, 4], Fraction(-5, 4)),                   # the mid point
+        ([-15, -12, 5, 4], Fraction(-5, 4)),         # (4x+5)(x^2-3)
+        ([4, 3], Fraction(-4, 3)),
+        ([-12, -9, 4, 3], Fraction(-4, 3)),          # (3x+4)(x^2-3)
+    ]),
+]
+
+
+def family_members(rng):
+    """2..4 members of one family (+ sometimes the plain d:/q: value of a rational member); returns
+    [(number, is_family_member, hidden_rational)]"""
+    lo, hi, members = rng.choice(FAMILIES)
+    k = rng.choice([2, 3, 3, 4])
+    # always a rational / dyadic member and an irrational one when possible
+    rats = [m for m in members if isinstance(m[1], Fraction)]
+    irr = [m for m in members if not isinstance(m[1], Fraction)]
+    pick = [rng.choice(rats), rng.choice(irr)]
+    rest = [m for m in members if m not in pick]
+    rng.shuffle(rest)
+    pick += rest[:k - 2]
+    rng.shuffle(pick)
+    out = []
+    for cs, v in pick:
+        out.append((("a:%s:%s:%s" % (",".join(map(str, cs)), lo, hi), float(v), len(cs) - 1), True, isinstance(v, Fraction)))
+    if rng.random() < 0.6:
+        v = rng.choice([m[1] for m in pick if isinstance(m[1], Fraction)])
+        if v.denominator & (v.denominator - 1) == 0:
+            tok = "d:" + dy_tok(v.numerator, v.denominator.bit_length() - 1)
+        else:
+            tok = "q:%d/%d" % (v.numerator, v.denominator)
+        out.append(((tok, float(v), 1), False, False))
+    return out
+
+
 def make_pool(rng):
     """6 numbers: always some rational, sqrt2-family, a cubic root, a secretly rational number and a nearly-equal pair"""
     groups = [
@@ -247,7 +321,18 @@ def make_pool(rng):
     pool = [pool[k] for k in perm]
     if deep is not None:
         deep = (perm.index(deep[0]), deep[1])
-    return pool, (perm.index(NS - 2), perm.index(NS - 1)), deep
+    pair = (perm.index(NS - 2), perm.index(NS - 1))
+    fam, hidden = [], []
+    if rng.random() < 0.55:
+        slots = [k for k in range(NS) if (deep is None or k != deep[0]) and (k not in pair or rng.random() < 0.5)]
+        rng.shuffle(slots)
+        for (num, is_member, is_hidden), k in zip(family_members(rng), slots):
+            pool[k] = num
+            if is_member:
+                fam.append(k)
+            if is_hidden:
+                hidden.append(k)
+    return pool, pair, deep, fam, hidden
 
 
 # ------------------------------------------------------------------------------------------------ pool polynomials
@@ -348,7 +433,30 @@ OPS = [("cmp", 18), ("cz", 5), ("cq", 10), ("cd", 8), ("sg", 4), ("fl", 3), ("ce
        ("pr", 4)]
 
 
-def history(rng, pool, polys, length, maxdeg=16):
+def scenario(rng, fam, hidden, alive):
+    """scripted blocks of queries (they assign nothing): the same pair compared twice and in both orders; hashes taken
+    before and after a query that collapses a hidden dyadic; `alive` = family slots not overwritten so far"""
+    fam = [k for k in fam if k in alive]
+    hidden = [k for k in hidden if k in alive]
+    k = rng.random()
+    if len(fam) >= 2 and (k < 0.5 or not hidden):
+        i, j = rng.sample(fam, 2)
+        return rng.choice([
+            ["cmp:%d:%d" % (i, j), "cmp:%d:%d" % (i, j), "cmp:%d:%d" % (j, i)],
+            ["cmp:%d:%d" % (i, j), "cmp:%d:%d" % (j, i), "cmp:%d:%d" % (i, j)],
+            ["fl:%d" % i, "cmp:%d:%d" % (i, j), "sg:%d" % j, "cmp:%d:%d" % (i, j)],
+        ])
+    if hidden:
+        h = rng.choice(hidden)
+        p1, p2 = rng.sample([0, 2, 6, 10], 2)
+        collapse = rng.choice([["rf:%d:%d" % (h, rng.choice([1, 3, 8, 40]))],
+                               ["cmp:%d:%d" % (h, rng.choice(fam) if fam else h)],
+                               ["db:%d" % h, "rf:%d:40" % h]])
+        return ["ha:%d:%d" % (h, p1), "ha:%d:%d" % (h, p2)] + collapse + ["ha:%d:%d" % (h, p1), "ha:%d:%d" % (h, p2)]
+    return []
+
+
+def history(rng, pool, polys, length, maxdeg=16, fam=(), hidden=()):
     val = [p[1] for p in pool]
     deg = [p[2] for p in pool]
     names = [o for o, _ in OPS]
@@ -356,8 +464,18 @@ def history(rng, pool, polys, length, maxdeg=16):
     ops = []
     arith = 0
     tries = 0
+    alive = set(range(NS))
+    if (fam or hidden) and rng.random() < 0.75:
+        ops += scenario(rng, fam, hidden, alive)            # on the pristine pool
     while len(ops) < length and tries < 20 * length:
         tries += 1
+        for o_ in ops[-1:]:
+            f_ = o_.split(":")
+            if f_[0] in ("add", "sub", "mul", "div", "neg", "inv", "cp"):
+                alive.discard(int(f_[1]))
+        if (fam or hidden) and rng.random() < 0.04:
+            ops += scenario(rng, fam, hidden, alive)
+            continue
         o = rng.choices(names, weights)[0]
         i = rng.randrange(NS)
         if o == "cmp":
@@ -376,7 +494,7 @@ def history(rng, pool, polys, length, maxdeg=16):
         elif o == "rf":
             ops.append("rf:%d:%d" % (i, rng.choice([1, 1, 2, 3, 5, 10, 30])))
         elif o == "ha":
-            ops.append("ha:%d:%d" % (i, rng.choice([0, 1, 2, 5, 10, 20])))
+            ops.append("ha:%d:%d" % (i, rng.choice([0, 0, 2, 6, 6, 10, 20])))
         elif o in ("add", "sub", "mul"):
             a, b = rng.randrange(NS), rng.randrange(NS)
             nd = deg[a] * deg[b]
@@ -434,7 +552,7 @@ def history(rng, pool, polys, length, maxdeg=16):
 
 
 def make_case(rng, length):
-    pool, pair, deep = make_pool(rng)
+    pool, pair, deep, fam, hidden = make_pool(rng)
     polys = [make_poly(rng, False, pair), make_poly(rng, False, pair), make_poly(rng, rng.random() < 0.7, pair)]
     if deep is not None:
         polys[0] = make_deep_poly(rng, deep, False)
@@ -442,7 +560,7 @@ def make_case(rng, length):
             polys[2] = make_deep_poly(rng, deep, rng.random() < 0.5)
     rng.shuffle(polys)
     mode = rng.choice("OCM")
-    ops = history(rng, pool, polys, length)
+    ops = history(rng, pool, polys, length, fam=fam, hidden=hidden)
     return "c09 %s:%d %s %s ; %s" % (mode, approx_magnitude(), " ".join(p[0] for p in pool), " ".join(p[0] for p in polys),
                                      " ".join(ops))
 
